@@ -120,6 +120,15 @@ Definition rx1_channel_obs_ok (reg : region) (i f : Z) (o_idx o_down o_freq : ou
   | _, _, _ => false
   end.
 
+(* GetRX1FrequencyForUplinkFrequency on ANY frequency f: regions answering RX1 on the uplink
+   frequency return f itself (nothing is snapped to a nearby channel); the other regions answer
+   with one of their downlink frequencies or an error (checked against the model) *)
+Definition rx1_frequency_any_ok (reg : region) (f : Z) (o : outcome Z) : bool :=
+  match reg with
+  | RUS915 | RAU915 | RCN470 => true
+  | _ => outcome_eqb Z.eqb o (Ok f)
+  end.
+
 (* ---- ping slot -------------------------------------------------------------- *)
 Definition ping_slot_ok (reg : region) (devaddr beacon : Z) (obs : outcome Z) : bool :=
   outcome_eqb Z.eqb obs (Ok (spec_ping_slot reg devaddr beacon)).
